@@ -377,7 +377,7 @@ def strategy():
 
     @st.composite
     def case(draw):
-        mode = draw(st.integers(0, len(MODES) - 1))
+        mode = draw(st.sampled_from([0, 1, 2, 3, 4, 4, 4, 5]))  # structural faults weighted up
         # the per-byte families cost 3-8 loads per byte of the file: small files
         spec = draw(small_specs if MODES[mode] in ("flip", "byte") else any_specs)
         if MODES[mode] in ("flip", "byte"):
